@@ -271,6 +271,17 @@ def module_state():
     for cls in (regions.RegionMeta, regions.RegionVisual):
         add(cls.valid_keys)
         add(cls.key_mapping)
+    # every class-level container of the metadata and region classes (lists of keys to drop, templates, ...): shared by all instances
+    import importlib
+    _md = importlib.import_module('regions.core.metadata')
+    classes = [_md.Meta, regions.RegionMeta, regions.RegionVisual] + [getattr(regions, n) for n in dir(regions)
+                                                                      if isinstance(getattr(regions, n), type) and n.endswith('Region')]
+    for cls in classes:
+        for name in sorted(vars(cls)):
+            v = vars(cls)[name]
+            if isinstance(v, (list, dict, set, tuple, frozenset)) and not name.startswith('__'):
+                h.update(f'{cls.__name__}.{name}'.encode())
+                add(sorted(v, key=repr) if isinstance(v, (set, frozenset)) else v)
     # process-wide settings of the libraries underneath: an operation that changes one of them changes what later, unrelated calls
     # return (number formatting, unit conversions, floating-point error handling, random streams, plotting defaults)
     import decimal
